@@ -112,7 +112,6 @@ def class_axioms(mentioned=None):
 
 class SV:
     """An opaque Python object: a term of sort Val."""
-    __slots__ = ("t",)
 
     def __init__(self, t):
         assert t.sort() == Val, t.sort()
@@ -272,6 +271,8 @@ def to_val(x):
     if isinstance(x, SBool):
         return VBool(x.t)
     if isinstance(x, Obj) and x.ident is not None:
+        return x.ident
+    if getattr(x, "host_symbolic", False) and getattr(x, "ident", None) is not None:
         return x.ident
     if isinstance(x, (type,)) or x is Ellipsis:
         return VObj(z3.IntVal(1_000_000 + _obj_id(x)))
